@@ -300,6 +300,110 @@ def check_c18(prop, tier, seed):
 HANDLERS["C18"] = check_c18
 
 
+# ----------------------------------------------------------------------------- C19: configurations
+
+C19_QUICK = ["dbg-none", "rel-ew3", "dbg-e", "dbg-w", "dbg-3", "rel-none"]
+# pairs differing in exactly one feature / the profile, and the generator profiles on which the
+# two builds must behave identically (forging is excluded when debug assertions differ; the
+# 2^32 boundary when wrapping differs)
+C19_PAIRS = [("dbg-none", "dbg-e", ["churn", "query", "clone"]), ("dbg-none", "dbg-w", ["churn", "query", "grow"]),
+             ("dbg-none", "dbg-3", ["churn", "query", "clone"]), ("dbg-none", "rel-none", ["churn", "query", "clone", "grow"])]
+
+
+def normalise(line, events_differ, arity_differ):
+    """Canonical form of one trace line for cross-configuration comparison."""
+    if " => " not in line:
+        return None
+    op, rest = line.split(" => ", 1)
+    k = op.split()[0]
+    if events_differ and k in ("events", "clear"):
+        return None
+    if arity_differ and k == "conv":
+        return None
+    obs, _, summ = rest.partition(" # ")
+    if arity_differ:
+        summ = " ".join(summ.split()[:5])
+        obs = re.sub(r" oc=\S+", "", obs)
+    return f"{op} => {obs} # {summ}"
+
+
+def cross_config(base, other, profile, seed, nseq, maxops):
+    """Replay the operation lists generated under `base` on the harness built as `other`
+    (implementation vs implementation, no model involved) and compare the observations."""
+    key = f"cross-{base}-{other}-{profile}-{seed}-{nseq}-{maxops}"
+    out = os.path.join(tdir(), "streams")
+    jf = os.path.join(out, key + ".json")
+    with Lock("stream-" + key):
+        if os.path.exists(jf):
+            return json.load(open(jf))
+        sb = engine.run_stream(base, profile, seed, nseq, maxops)
+        bo = engine.build_rt(other)
+        res = {"key": key, "base": base, "other": other, "profile": profile, "diffs": [], "lines": 0, "crashed": None}
+        if not bo["ok"] or sb.get("crashed"):
+            res["crashed"] = f"build/base stream failed: {sb.get('crashed') or bo['log_tail'][-300:]}"
+        else:
+            tf = os.path.join(out, key + ".trace")
+            with open(tf, "w") as fh:
+                p = subprocess.run([bo["bin"], "run", sb["trace"]], stdout=fh, stderr=subprocess.PIPE, text=True, env=ENV)
+            if p.returncode != 0:
+                res["crashed"] = f"harness {other} exited with {p.returncode}: {p.stderr[-300:]}"
+            fb, fo = engine.CONFIGS[base][1], engine.CONFIGS[other][1]
+            ev = ("events" in fb) != ("events" in fo)
+            ar = ("32_components" in fb) != ("32_components" in fo)
+            la = [l.rstrip("\n") for l in open(sb["trace"]) if " => " in l or l.startswith("seq ")]
+            lb = [l.rstrip("\n") for l in open(tf) if " => " in l or l.startswith("seq ")]
+            seqname = "?"
+            for x, y in zip(la, lb):
+                if x.startswith("seq "):
+                    seqname = x
+                    continue
+                nx, ny = normalise(x, ev, ar), normalise(y, ev, ar)
+                res["lines"] += 1
+                if nx != ny:
+                    res["diffs"].append({"seq": seqname, "base": x[:600], "other": y[:600]})
+                    if len(res["diffs"]) >= 5:
+                        break
+            if len(la) != len(lb):
+                res["diffs"].append({"seq": "length", "base": str(len(la)), "other": str(len(lb))})
+        json.dump(res, open(jf, "w"))
+        return res
+
+
+def check_c19(prop, tier, seed):
+    t0 = time.time()
+    lean = lean_obligations(prop)
+    t = engine.tiers(tier)
+    cfgs = list(engine.CONFIGS.keys()) if tier == "thorough" else C19_QUICK
+    profiles = engine.ALL_PROFILES if tier == "thorough" else ["mix", "overflow", "events"]
+    streams = []
+    for c in cfgs:
+        for pr in profiles:
+            streams.append(engine.run_stream(c, pr, seed, t["nseq"], t["maxops"]))
+    pairs = C19_PAIRS
+    if tier == "thorough":
+        pairs = C19_PAIRS + [("rel-none", "rel-e", ["churn", "query", "clone"]), ("rel-none", "rel-w", ["churn", "query", "grow"]),
+                             ("rel-none", "rel-3", ["churn", "query"]), ("dbg-ew3", "rel-ew3", ["churn", "query", "clone", "events"]),
+                             ("dbg-e", "dbg-ew", ["churn", "events"]), ("dbg-w", "dbg-w3", ["churn", "overflow"])]
+    crosses = [cross_config(b, o, pr, seed, t["nseq"], t["maxops"]) for (b, o, prs) in pairs for pr in prs]
+    cross_bad = [c for c in crosses if c["diffs"] or c["crashed"]]
+    extra = {"configurations": cfgs, "cross_configuration_pairs": [f"{c['base']} vs {c['other']} on {c['profile']}: {c['lines']} lines, {len(c['diffs'])} differences" for c in crosses],
+             "cross_configuration_lines_compared": sum(c["lines"] for c in crosses)}
+    if cross_bad and not any(s.get("mismatches") or s.get("oracle_hits") for s in streams):
+        # two builds of the implementation disagree where the features document no difference:
+        # that IS a concrete failing input for this property
+        c = cross_bad[0]
+        path = write_replay(prop, "cross-config", {"property": prop, "kind": "cross-config", "base": c["base"], "other": c["other"],
+                                                   "profile": c["profile"], "differences": c["diffs"][:5], "crashed": c["crashed"],
+                                                   "note": "the same operation list gives different observations under two configurations that should only differ in what the feature documents"})
+        print(f"VIOLATION property={prop} replay={path}")
+        engine.write_evidence(prop, tier, seed, lean, streams, 1, [], extra, t0)
+        return 1
+    return engine.decide(prop, tier, seed, lean, streams, lambda line: True, extra_cov=extra, t0=t0)
+
+
+HANDLERS["C19"] = check_c19
+
+
 def replay_mac(data):
     work = os.path.join(tdir(), "replay-mac-%d" % os.getpid())
     os.makedirs(work, exist_ok=True)
@@ -321,3 +425,7 @@ def replay_mac(data):
 def setup():
     b = build_mac()
     log(f"harness mac ok={b['ok']} ({b['wall_s']} s)")
+    from concurrent.futures import ThreadPoolExecutor
+    with ThreadPoolExecutor(max_workers=4) as ex:
+        for c, r in zip(C19_QUICK, ex.map(engine.build_rt, C19_QUICK)):
+            log(f"harness {c} ok={r['ok']} ({r['wall_s']} s)")
